@@ -121,7 +121,7 @@ def rule_K(F, R, which=("K1", "K2", "K3", "K4", "K5")):
         # positive control for the matcher: it must recognise the head name at the sites that do use it
         ctrl = len(reader_sites) + len(cas)
         R.floor("K1", "sites where the head-name matcher fires (get + compare_and_swap; positive control)", ctrl, 2)
-        R.floor("K1", "Service::put/del call sites examined", nsites, 6)
+        R.floor("K1", "Service::put/del call sites examined", nsites, 2)
 
     # ---- K2: success => won the swap ---------------------------------------------------
     if "K2" in which:
@@ -502,13 +502,37 @@ def rule_cleanup(F, R, which=("G1", "G2", "G3", "O1")):
         aged = [d for d in info if _is_age_pass(d) and _is_version_listing_del(d, c, fl, F)]
         R.floor("G3", "age-based deletion sites", len(aged), 1)
         for d in aged:
-            snaplists = {l for l in d["name_lists"] if any(p.startswith("s") for p in list_prefix(l))}
-            for g in d["guards"]:
-                snaplists |= {l for l in g["lists"] if any(p.startswith("s") for p in list_prefix(l))}
-            if not snaplists:
-                R.violation("G3", subj, "age-pass-not-from-snapshot", "the age-based deletion pass does not start from the newest snapshot on the chain (versions after the snapshot would be deleted)", where(b, d["bb"]))
+            # provenance of the loop variable's start value: every origin must be an Option::Some
+            # built under a membership test on the snapshot listing (the newest snapshot on the chain)
+            origins = _start_origins(c, fl, d)
+            bad = None
+            good = 0
+            if not origins:
+                bad = "cannot find where the age pass starts"
+            for (kind, obb, what) in origins:
+                if kind == "none":
+                    continue
+                if kind != "some":
+                    bad = "the age-based pass starts from %s, not from a version established as the newest snapshot on the chain" % what
+                    break
+                oks = False
+                for (gs_, labs) in guards_of(c, obb):
+                    t = c.term(gs_)
+                    if is_plumbing(t):
+                        continue
+                    gsl = fl.slice_operand(t["o"], stop=stop)
+                    gl = {r[1] for r in gsl.roots if r[0] == "call" and is_list(c.term(r[1]))}
+                    if any(any(p.startswith("s") for p in list_prefix(l)) for l in gl) and "0" not in labs:
+                        oks = True
+                if oks:
+                    good += 1
+                else:
+                    bad = "the start of the age-based pass is set at %s without a positive membership test in the snapshot listing" % loc(c.term(obb)["sp"])
+                    break
+            if bad or not good:
+                R.violation("G3", subj, "age-pass-not-from-snapshot", (bad or "no snapshot-derived start") + " (versions newer than the retained snapshot could be deleted)", where(b, d["bb"]))
             else:
-                R.ok("G3", "age pass rooted at the newest snapshot", where(b, d["bb"]))
+                R.ok("G3", "age pass starts at a version that passed the snapshot-membership test", where(b, d["bb"]))
             # selection test: a guard whose operand derives from a closure with `Lt(creation, threshold)`
             sel = False
             badsel = None
@@ -616,3 +640,77 @@ def _age_closure_ok(cb):
                     return "the age selection compares creation time and threshold as %s with operands (%s, %s): versions *newer* than the retention age would be selected" % (
                         op, "creation" if a_param else "threshold", "threshold" if b_up else "creation")
     return res
+
+
+def _start_origins(c, fl, d):
+    """origins of the values that seed the loop-carried variable in the name of del `d`:
+    [(kind, bb, description)] with kind in some|none|call|param|other.  Follows copies,
+    Option payload projections and refs backwards; stops at aggregate constructions / calls."""
+    loops = c.loops()
+    inl = None
+    for h, body in loops.items():
+        if d["bb"] in body and (inl is None or len(body) < len(inl)):
+            inl = body
+    if inl is None:
+        return []
+    # locals in the name slice that are assigned both inside and outside the loop = loop-carried
+    carried = []
+    for l in d["name_slice"].locals:
+        defs = [x for x in fl.defs.get(l, ()) if x[0] in ("assign", "call") and not x[3]]
+        inside = [x for x in defs if x[1] in inl]
+        outside = [x for x in defs if x[1] not in inl]
+        if inside and outside and fl.local_name(l):
+            carried.append((l, outside))
+    out = []
+    seen = set()
+
+    def walk(o, depth=0):
+        p = op_place(o)
+        if p is None:
+            out.append(("other", None, "a constant"))
+            return
+        key = (p["l"], tuple(pproj(p)))
+        if key in seen or depth > 40:
+            return
+        seen.add(key)
+        proj = [e for e in pproj(p) if e[0] != "deref"]
+        ds = [x for x in fl.defs.get(p["l"], ()) if x[0] in ("assign", "call")]
+        if 1 <= p["l"] <= fl.argc:
+            out.append(("param", None, "a parameter"))
+        for x in ds:
+            if x[0] == "call":
+                t = x[4]
+                from tc.flow import transparent
+                tr, _ = transparent(t)
+                if tr and t["args"]:
+                    walk(t["args"][0], depth + 1)
+                else:
+                    out.append(("call", x[1], "the result of %s at %s" % (t.get("callee"), loc(t["sp"]))))
+                continue
+            r = x[4]
+            if r["k"] in ("use", "cast"):
+                walk(r["o"], depth + 1)
+            elif r["k"] in ("ref", "copyforderef"):
+                walk({"c": r["p"]}, depth + 1)
+            elif r["k"] == "agg" and r.get("ak") == "adt" and r["adt"].endswith("option::Option"):
+                if r["variant"] == "Some":
+                    out.append(("some", x[1], "Some(..)"))
+                else:
+                    out.append(("none", x[1], "None"))
+            else:
+                out.append(("other", x[1], "a computed value"))
+
+    for l, outside in carried:
+        for x in outside:
+            if x[0] == "call":
+                t = x[4]
+                out.append(("call", x[1], "the result of %s at %s" % (t.get("callee"), loc(t["sp"]))))
+                continue
+            r = x[4]
+            if r["k"] in ("use", "cast"):
+                walk(r["o"])
+            elif r["k"] in ("ref", "copyforderef"):
+                walk({"c": r["p"]})
+            else:
+                out.append(("other", x[1], "a computed value"))
+    return out
